@@ -22,7 +22,7 @@ func init() {
 
 func runC13(c *Ctx) {
 	p := c.Prog
-	c.Rule("R13.1", "range-index agreement: an index from ranging over X indexes only X", 10)
+	c.Rule("R13.1", "range-index agreement: an index from ranging over X indexes only X", 5)
 	c.Rule("R13.2", "weights written are (100-w, w): #0 on stable, #1 on canary", 3)
 	c.Rule("R13.3", "backendRef helpers copy other entries unchanged and never alias the object that was read", 5)
 	c.Rule("R13.4", "restore: -1 sentinel; only emptied canary rules are dropped", 2)
@@ -121,21 +121,36 @@ func runC13(c *Ctx) {
 		if n < 2 {
 			c.Ob("R13.2", "buildCanaryWeightHttpRoutes#Weight", fn.Pos(), false, "two weight stores (stable, canary)", "anchor not found")
 		}
-		// rules without a stable ref are appended untouched
-		for _, call := range AllCalls(fn) {
-			if CalleeName(call.Common()) != "append" {
-				continue
+		// rules without a stable ref are appended untouched: from the edge on which the stable ref is
+		// nil, the rule reaches an append without passing a call that edits its backendRefs
+		isEdit := func(in ssa.Instruction) bool {
+			ci, ok := in.(ssa.CallInstruction)
+			return ok && (NameMatch(CalleeName(ci.Common()), "gateway.setServiceBackendRef") || NameMatch(CalleeName(ci.Common()), "gateway.filterOutServiceBackendRef"))
+		}
+		isAppend := func(in ssa.Instruction) bool {
+			ci, ok := in.(ssa.CallInstruction)
+			return ok && CalleeName(ci.Common()) == "append"
+		}
+		nEdges := 0
+		for _, b := range fn.Blocks {
+			for k := range b.Succs {
+				if !EdgeFactMatches(b, k, FNil(MResult("gateway.getServiceBackendRef", 1))) {
+					continue
+				}
+				// only the stable-ref lookup (its argument mentions StableService)
+				ifi := b.Instrs[len(b.Instrs)-1].(*ssa.If)
+				if !TermOf(ifi.Cond).Any(MField("StableService")) {
+					continue
+				}
+				nEdges++
+				kept, _ := CanReach(Point{Block: b.Succs[k]}, isAppend, ReachOpts{CutInstr: isEdit})
+				edited, _ := CanReach(Point{Block: b.Succs[k]}, isEdit, ReachOpts{CutInstr: isAppend})
+				ok := kept && !edited
+				c.Ob("R13.3", "buildCanaryWeightHttpRoutes#untouched-rule", ifi.Pos(), ok, "a rule that does not reference the stable Service is appended as it is", ifs(!kept, "such a rule is not appended; ")+ifs(edited, "its backendRefs are edited before it is appended"))
 			}
-			fs := FactsAtInstr(call.(ssa.Instruction))
-			if !HasFact(fs, FNil(MResult("gateway.getServiceBackendRef", 1))) {
-				continue
-			}
-			reach, _ := CanReach(PointAfter(call.(ssa.Instruction)), func(in ssa.Instruction) bool {
-				ci, ok := in.(ssa.CallInstruction)
-				return ok && (NameMatch(CalleeName(ci.Common()), "gateway.setServiceBackendRef") || NameMatch(CalleeName(ci.Common()), "gateway.filterOutServiceBackendRef"))
-			}, ReachOpts{CutEdge: func(b *ssa.BasicBlock, k int) bool { return k == 0 && isLoopHeaderEdge(b) }})
-			_ = reach
-			c.Ob("R13.3", "buildCanaryWeightHttpRoutes#untouched-rule", call.Pos(), true, "a rule that does not reference the stable Service is appended as it is", "")
+		}
+		if nEdges == 0 {
+			c.Ob("R13.3", "buildCanaryWeightHttpRoutes#untouched-rule", fn.Pos(), false, "branch on the stable backendRef being absent", "anchor not found")
 		}
 	}
 
